@@ -296,8 +296,10 @@ theorem partition_step {p q : Proj} (g : Good p) (o : Op) (hq : applyOp p o = .o
     · rw [e]; exact ⟨⟨h, w⟩, Carried.refl w⟩
     · rw [e]
       have hp := withProfiles_partition h (enableProfiles p ns)
-      exact ⟨⟨hp, svcWF_of_find_eq w (fun k s e => by rw [← find_withProfiles h _ k]; exact e) hp⟩,
-        carried_of_find_eq w (find_withProfiles h _)⟩
+      have w0 : SvcWF (withProfiles p (enableProfiles p ns)) :=
+        svcWF_of_find_eq w (fun k s e => by rw [← find_withProfiles h _ k]; exact e) hp
+      exact ⟨⟨resolveEnabled_partition hp, svcWF_resolveEnabled w0⟩,
+        (carried_of_find_eq w (find_withProfiles h _)).trans (carried_resolveEnabled w0)⟩
   | disable ns =>
     cases hq
     have := withServicesDisabled_inv h w ns
@@ -349,7 +351,7 @@ theorem profilesOK_step {p q : Proj} (h : Partition p) (nk : NamesOK p) (ok : Pr
     cases hq
     rcases withServicesEnabled_eq p ns with e | e
     · rw [e]; exact ok
-    · rw [e]; exact withProfiles_profilesOK h _
+    · rw [e]; exact profilesOK_resolveEnabled (withProfiles_profilesOK h _)
   | disable ns =>
     cases hq
     intro kv hkv
@@ -423,7 +425,12 @@ theorem enable_perm {p p' : Proj} (h : Partition p) (e : SameProj p p') (names :
   unfold withServicesEnabled
   split
   · exact ⟨es, ed, e.2.2.1⟩
-  · rw [ep]; exact profiles_perm h e _
+  · rw [ep]
+    have P := profiles_perm h e (enableProfiles p' names)
+    refine ⟨fun k => ?_, P.2.1, P.2.2⟩
+    rw [lookup_resolveEnabled_services, lookup_resolveEnabled_services, P.1 k]
+    show Option.map (resolveEnvSvc p.environment) _ = Option.map (resolveEnvSvc p'.environment) _
+    rw [e.2.2.2.2.2.2.2]
 
 /-- `WithServicesDisabled` is a function of the project and the (ordered) list of names -/
 theorem disable_perm {p p' : Proj} (h : Partition p) (e : SameProj p p') (names : List String) :
@@ -450,7 +457,7 @@ theorem prune_perm {p p' : Proj} (e : SameProj p p') :
     intro f k
     simp only [List.mem_flatMap]
     exact ⟨fun ⟨a, ha, hk⟩ => ⟨a, e.1.mem_iff.1 ha, hk⟩, fun ⟨a, ha, hk⟩ => ⟨a, e.1.mem_iff.2 ha, hk⟩⟩
-  obtain ⟨_, _, _, e1, e2, e3, e4⟩ := e
+  obtain ⟨_, _, _, e1, e2, e3, e4, _⟩ := e
   refine ⟨fun k => ?_, fun k => ?_, fun k => ?_, fun k => ?_⟩ <;>
     simp only [withoutUnnecessaryResources, lookup_pick, mem, e1, e2, e3, e4]
 
